@@ -350,12 +350,26 @@ def sample_probes(T, tier, rng, pushers):
                    "programs_taken": len(progs), "per_pushing_opcode": by_op}
 
 
+def macro_number(txt, name, depth=0):
+    """value of `#define <name> <number>`; follows `#define A B` chains and parentheses down to a decimal literal; anything else
+    (an expression, an undefined name, a cycle) -> None, which the caller reports"""
+    m = re.search(r"^[ \t]*#[ \t]*define[ \t]+%s[ \t]+(.+?)[ \t]*(?:/\*.*|//.*)?$" % re.escape(name), txt, re.M)
+    if not m or depth > 8:
+        return None
+    v = m.group(1).strip()
+    while v.startswith("(") and v.endswith(")"):
+        v = v[1:-1].strip()
+    if re.fullmatch(r"\d+[uUlL]*", v):
+        return int(re.match(r"\d+", v).group(0))
+    if re.fullmatch(r"[A-Za-z_]\w*", v):
+        return macro_number(txt, v, depth + 1)
+    return None
+
+
 def tool_defaults():
     """DEFAULT_VM_MEM_SIZE, DEFAULT_VM_STACK_SIZE of the tree under check (include/nev.h)"""
     txt = open(os.path.join(common.REPO, "include", "nev.h")).read()
-    m = re.search(r"#define\s+DEFAULT_VM_MEM_SIZE\s+(\d+)", txt)
-    s_ = re.search(r"#define\s+DEFAULT_VM_STACK_SIZE\s+(\d+)", txt)
-    return (int(m.group(1)) if m else None, int(s_.group(1)) if s_ else None)
+    return (macro_number(txt, "DEFAULT_VM_MEM_SIZE"), macro_number(txt, "DEFAULT_VM_STACK_SIZE"))
 
 
 def cli_kind(rc, err):
